@@ -2,6 +2,9 @@
 // Uint64 / Uint128 / Uint256 / Uint512 / Decimal / Decimal256.
 // The view `x@` is the mathematical value (nat). 256-bit values are two u128 limbs and 512-bit
 // values two 256-bit limbs, so every value is bounded by construction.
+// Panicking operations (`+ - * / %`, multiply_ratio, from_ratio, pow, ...) are specified for the runs that RETURN:
+// a panic aborts the transaction, so `ensures no_panic_condition && result == formula` is their partial-correctness
+// contract (vacuity of the surrounding function is guarded by the `ensures false` twins).
 // All `external_body` functions below are assumed contracts on the dependency, written from
 // the cosmwasm-std 2.1 sources (math/uint128.rs, uint256.rs, decimal.rs, decimal256.rs).
 // Kani proves the linear Uint64/Uint128 entries against the real crate (kani/src/shim_conformance.rs);
@@ -164,7 +167,7 @@ impl $t {
     /// floor(self * num / den); panics (aborts) if den == 0 or the result overflows
     #[verifier::external_body]
     pub fn multiply_ratio<A: ToNat, B: ToNat>(&self, num: A, den: B) -> (r: $t)
-        ensures den.to_nat() != 0 && (self@ * num.to_nat()) / den.to_nat() <= $max ==> r@ == (self@ * num.to_nat()) / den.to_nat()
+        ensures den.to_nat() != 0, (self@ * num.to_nat()) / den.to_nat() <= $max, r@ == (self@ * num.to_nat()) / den.to_nat()
     { unimplemented!() }
     #[verifier::external_body]
     pub fn checked_multiply_ratio<A: ToNat, B: ToNat>(&self, num: A, den: B) -> (r: Result<$t, CheckedMultiplyRatioError>)
@@ -193,7 +196,7 @@ impl $t {
     #[verifier::external_body]
     pub fn isqrt(self) -> (r: $t) ensures r@ * r@ <= self@, self@ < (r@ + 1) * (r@ + 1) { unimplemented!() }
     #[verifier::external_body]
-    pub fn pow(self, e: u32) -> (r: $t) ensures nat_pow(self@, e as nat) <= $max ==> r@ == nat_pow(self@, e as nat) { unimplemented!() }
+    pub fn pow(self, e: u32) -> (r: $t) ensures nat_pow(self@, e as nat) <= $max, r@ == nat_pow(self@, e as nat) { unimplemented!() }
     #[verifier::external_body]
     pub fn checked_pow(self, e: u32) -> (r: Result<$t, OverflowError>)
         ensures match r { Ok(x) => x@ == nat_pow(self@, e as nat), Err(_) => nat_pow(self@, e as nat) > $max }
@@ -202,7 +205,7 @@ impl $t {
 impl core::ops::Add for $t {
     type Output = $t;
     #[verifier::external_body]
-    fn add(self, o: $t) -> (r: $t) ensures self@ + o@ <= $max ==> r@ == self@ + o@ { unimplemented!() }
+    fn add(self, o: $t) -> (r: $t) ensures self@ + o@ <= $max, r@ == self@ + o@ { unimplemented!() }
 }
 impl AddSpecImpl<$t> for $t {
     open spec fn obeys_add_spec() -> bool { false }
@@ -212,7 +215,7 @@ impl AddSpecImpl<$t> for $t {
 impl core::ops::Sub for $t {
     type Output = $t;
     #[verifier::external_body]
-    fn sub(self, o: $t) -> (r: $t) ensures self@ >= o@ ==> r@ == self@ - o@ { unimplemented!() }
+    fn sub(self, o: $t) -> (r: $t) ensures self@ >= o@, r@ == self@ - o@ { unimplemented!() }
 }
 impl SubSpecImpl<$t> for $t {
     open spec fn obeys_sub_spec() -> bool { false }
@@ -222,7 +225,7 @@ impl SubSpecImpl<$t> for $t {
 impl core::ops::Mul for $t {
     type Output = $t;
     #[verifier::external_body]
-    fn mul(self, o: $t) -> (r: $t) ensures self@ * o@ <= $max ==> r@ == self@ * o@ { unimplemented!() }
+    fn mul(self, o: $t) -> (r: $t) ensures self@ * o@ <= $max, r@ == self@ * o@ { unimplemented!() }
 }
 impl MulSpecImpl<$t> for $t {
     open spec fn obeys_mul_spec() -> bool { false }
@@ -232,7 +235,7 @@ impl MulSpecImpl<$t> for $t {
 impl core::ops::Div for $t {
     type Output = $t;
     #[verifier::external_body]
-    fn div(self, o: $t) -> (r: $t) ensures o@ != 0 ==> r@ == self@ / o@ { unimplemented!() }
+    fn div(self, o: $t) -> (r: $t) ensures o@ != 0, r@ == self@ / o@ { unimplemented!() }
 }
 impl DivSpecImpl<$t> for $t {
     open spec fn obeys_div_spec() -> bool { false }
@@ -242,7 +245,7 @@ impl DivSpecImpl<$t> for $t {
 impl core::ops::Rem for $t {
     type Output = $t;
     #[verifier::external_body]
-    fn rem(self, o: $t) -> (r: $t) ensures o@ != 0 ==> r@ == self@ % o@ { unimplemented!() }
+    fn rem(self, o: $t) -> (r: $t) ensures o@ != 0, r@ == self@ % o@ { unimplemented!() }
 }
 impl RemSpecImpl<$t> for $t {
     open spec fn obeys_rem_spec() -> bool { false }
@@ -266,7 +269,7 @@ impl Uint64 {
 }
 impl Uint128 {
     #[verifier::when_used_as_spec(spec_new)]
-    pub fn new(v: u128) -> (r: Uint128) ensures r.v == v, r == Self::spec_new(v) { Uint128 { v } }
+    pub const fn new(v: u128) -> (r: Uint128) ensures r.v == v, r == Self::spec_new(v) { Uint128 { v } }
     pub open spec fn spec_new(v: u128) -> Uint128 { Uint128 { v } }
     pub fn u128(&self) -> (r: u128) ensures r == self.v { self.v }
 }
@@ -307,32 +310,26 @@ from_impl!(u128, Uint512, x => Uint512 { hi: Uint256 { hi: 0, lo: 0 }, lo: Uint2
 from_impl!(Decimal, Decimal256, x => Decimal256 { a: Uint256 { hi: 0, lo: x.a } });
 
 verus! {
-/// narrowing conversions (`TryFrom`): Ok iff the value fits
-pub trait TryNarrow<T>: Sized { fn try_narrow(self) -> Result<T, ConversionOverflowError>; }
-impl TryNarrow<Uint128> for Uint256 {
+} // verus!
+/// narrowing conversions (`TryFrom` / `.try_into()`): Ok iff the value fits
+macro_rules! try_from_impl { ($src:ty, $dst:ty, $max:expr) => { verus! {
+impl TryFrom<$src> for $dst {
+    type Error = ConversionOverflowError;
     #[verifier::external_body]
-    fn try_narrow(self) -> (r: Result<Uint128, ConversionOverflowError>)
-        ensures match r { Ok(x) => x@ == self@, Err(_) => self@ > U128_MAX }
+    fn try_from(x: $src) -> (r: Result<$dst, ConversionOverflowError>)
+        ensures match r { Ok(y) => y@ == x@, Err(_) => x@ > $max }
     { unimplemented!() }
 }
-impl TryNarrow<Uint64> for Uint128 {
-    #[verifier::external_body]
-    fn try_narrow(self) -> (r: Result<Uint64, ConversionOverflowError>)
-        ensures match r { Ok(x) => x@ == self@, Err(_) => self@ > U64_MAX }
-    { unimplemented!() }
+impl vstd::std_specs::convert::TryFromSpecImpl<$src> for $dst {
+    open spec fn obeys_try_from_spec() -> bool { false }
+    uninterp spec fn try_from_spec(x: $src) -> Result<$dst, ConversionOverflowError>;
 }
-impl TryNarrow<Uint128> for Uint512 {
-    #[verifier::external_body]
-    fn try_narrow(self) -> (r: Result<Uint128, ConversionOverflowError>)
-        ensures match r { Ok::<Uint128, ConversionOverflowError>(x) => x@ == self@, Err(_) => self@ > U128_MAX }
-    { unimplemented!() }
-}
-impl TryNarrow<Uint256> for Uint512 {
-    #[verifier::external_body]
-    fn try_narrow(self) -> (r: Result<Uint256, ConversionOverflowError>)
-        ensures match r { Ok::<Uint256, ConversionOverflowError>(x) => x@ == self@, Err(_) => self@ > u256_max() }
-    { unimplemented!() }
-}
+} } }
+try_from_impl!(Uint256, Uint128, U128_MAX);
+try_from_impl!(Uint128, Uint64, U64_MAX);
+try_from_impl!(Uint512, Uint128, U128_MAX);
+try_from_impl!(Uint512, Uint256, u256_max());
+verus! {
 
 // ---------------------------------------------------------------- Decimal (128-bit atomics)
 impl Decimal {
@@ -346,8 +343,7 @@ impl Decimal {
     #[verifier::external_body]
     pub fn raw(x: u128) -> (r: Decimal) ensures r@ == x as nat { unimplemented!() }
     /// `Decimal::percent(n)` = n / 100
-    #[verifier::external_body]
-    pub fn percent(n: u64) -> (r: Decimal) ensures r@ == (n as nat) * 10_000_000_000_000_000 { unimplemented!() }
+    pub const fn percent(n: u64) -> (r: Decimal) ensures r@ == (n as nat) * 10_000_000_000_000_000 { Decimal { a: (n as u128) * 10_000_000_000_000_000u128 } }
     #[verifier::external_body]
     pub fn atomics(&self) -> (r: Uint128) ensures r@ == self@ { unimplemented!() }
     #[verifier::external_body]
@@ -355,7 +351,7 @@ impl Decimal {
     /// floor(n * 10^18 / d); panics if d == 0 or on overflow
     #[verifier::external_body]
     pub fn from_ratio<A: ToNat, B: ToNat>(n: A, d: B) -> (r: Decimal)
-        ensures d.to_nat() != 0 && (n.to_nat() * DEC) / d.to_nat() <= U128_MAX ==> r@ == (n.to_nat() * DEC) / d.to_nat()
+        ensures d.to_nat() != 0, (n.to_nat() * DEC) / d.to_nat() <= U128_MAX, r@ == (n.to_nat() * DEC) / d.to_nat()
     { unimplemented!() }
     /// floor(a * b / 10^18)
     #[verifier::external_body]
@@ -384,6 +380,10 @@ impl Decimal {
     { unimplemented!() }
 }
 pub uninterp spec fn dec_parse(s: Seq<char>) -> Option<nat>;
+/// the two decimal literals the code parses (perform_swap.rs): "0.01" = 10^16 atomics, "0.5" = 5*10^17 atomics
+pub broadcast axiom fn axiom_dec_parse_0_01() ensures #[trigger] dec_parse("0.01"@) == Some(10_000_000_000_000_000nat);
+pub broadcast axiom fn axiom_dec_parse_0_5() ensures #[trigger] dec_parse("0.5"@) == Some(500_000_000_000_000_000nat);
+pub broadcast group group_dec_parse { axiom_dec_parse_0_01, axiom_dec_parse_0_5 }
 
 impl Decimal256 {
     #[verifier::external_body]
@@ -402,7 +402,7 @@ impl Decimal256 {
     /// floor(n * 10^18 / d); panics if d == 0 or on overflow
     #[verifier::external_body]
     pub fn from_ratio<A: ToNat, B: ToNat>(n: A, d: B) -> (r: Decimal256)
-        ensures d.to_nat() != 0 && (n.to_nat() * DEC) / d.to_nat() <= u256_max() ==> r@ == (n.to_nat() * DEC) / d.to_nat()
+        ensures d.to_nat() != 0, (n.to_nat() * DEC) / d.to_nat() <= u256_max(), r@ == (n.to_nat() * DEC) / d.to_nat()
     { unimplemented!() }
     #[verifier::external_body]
     pub fn checked_from_ratio<A: ToNat, B: ToNat>(n: A, d: B) -> (r: Result<Decimal256, CheckedFromRatioError>)
@@ -442,7 +442,7 @@ impl Decimal256 {
     { unimplemented!() }
     #[verifier::external_body]
     pub fn pow(self, e: u32) -> (r: Decimal256)
-        ensures e == 2 && (self@ * self@) / DEC <= u256_max() ==> r@ == (self@ * self@) / DEC
+        ensures e == 2 ==> (self@ * self@) / DEC <= u256_max() && r@ == (self@ * self@) / DEC
     { unimplemented!() }
     #[verifier::external_body]
     pub fn to_uint_floor(self) -> (r: Uint256) ensures r@ == self@ / DEC { unimplemented!() }
@@ -460,7 +460,7 @@ pub open spec fn dec_from_atomics(v: nat, places: nat) -> nat {
 impl core::ops::Sub for Decimal256 {
     type Output = Decimal256;
     #[verifier::external_body]
-    fn sub(self, o: Decimal256) -> (r: Decimal256) ensures self@ >= o@ ==> r@ == self@ - o@ { unimplemented!() }
+    fn sub(self, o: Decimal256) -> (r: Decimal256) ensures self@ >= o@, r@ == self@ - o@ { unimplemented!() }
 }
 impl SubSpecImpl<Decimal256> for Decimal256 {
     open spec fn obeys_sub_spec() -> bool { false }
@@ -470,7 +470,7 @@ impl SubSpecImpl<Decimal256> for Decimal256 {
 impl core::ops::Mul for Decimal256 {
     type Output = Decimal256;
     #[verifier::external_body]
-    fn mul(self, o: Decimal256) -> (r: Decimal256) ensures (self@ * o@) / DEC <= u256_max() ==> r@ == (self@ * o@) / DEC { unimplemented!() }
+    fn mul(self, o: Decimal256) -> (r: Decimal256) ensures (self@ * o@) / DEC <= u256_max(), r@ == (self@ * o@) / DEC { unimplemented!() }
 }
 impl MulSpecImpl<Decimal256> for Decimal256 {
     open spec fn obeys_mul_spec() -> bool { false }
@@ -480,7 +480,7 @@ impl MulSpecImpl<Decimal256> for Decimal256 {
 impl core::ops::Div for Decimal256 {
     type Output = Decimal256;
     #[verifier::external_body]
-    fn div(self, o: Decimal256) -> (r: Decimal256) ensures o@ != 0 && (self@ * DEC) / o@ <= u256_max() ==> r@ == (self@ * DEC) / o@ { unimplemented!() }
+    fn div(self, o: Decimal256) -> (r: Decimal256) ensures o@ != 0, (self@ * DEC) / o@ <= u256_max(), r@ == (self@ * DEC) / o@ { unimplemented!() }
 }
 impl DivSpecImpl<Decimal256> for Decimal256 {
     open spec fn obeys_div_spec() -> bool { false }
